@@ -44,6 +44,9 @@ def _diff_reads(value):
 
 
 def run(ctx):
+    from .C09 import preprocessing
+
+    preprocessing(ctx, rule="R08.7")  # masked / no-data values must reach the kernels as NaN (their skip value): shared with C09
     prog = ctx.prog
     mod = prog.mod(EST)
     kernels = {}
